@@ -25,6 +25,7 @@ SNIPPETS = [
     ("fullC3", "Kim v. Lee, 2 F.3d 20 (1995).", "FullCaseCitation", 0),  # same volume/page as fullC, sibling series
     ("fullP", "Roe v. Wade, 410 U.S. ___ (1973).", "FullCaseCitation", 0),
     ("fullQ", "Baz v. Qux, 410 U.S. ___ (1974).", "FullCaseCitation", 0),  # second placeholder case, same reporter+volume
+    ("fullU", "Trump v. Hawaii, 585 U.S. _ (2018).", "FullCaseCitation", 0),  # placeholder written with one underscore
     ("law", "Mass. Gen. Laws ch. 1, § 2.", "FullLawCitation", 0),
     ("jour", "1 Minn. L. Rev. 1.", "FullJournalCitation", 0),
     ("jourP", "1 Minn. L. Rev. ___.", "FullJournalCitation", 0),
@@ -47,9 +48,9 @@ SNIPPETS = [
     ("unknown", "§ 5", "UnknownCitation", 0),
 ]
 NAMES = [s[0] for s in SNIPPETS]
-CORE12 = ["fullA", "fullA2", "fullB", "fullC", "fullC3", "fullP", "fullQ", "shortAmb", "shortAmbJones", "shortP", "shortPQux", "supraBar", "refJones", "idNoPin", "idValid", "unknown"]
-CLASS = {"fullA": "A", "fullA2": "A", "fullB": "B", "fullC": "C", "fullC3": "C3", "fullP": "P", "fullQ": "Q", "law": "law", "jour": "jour", "jourP": "jourP"}
-PLACEHOLDER_CLASSES = ("P", "Q")  # every instance is its own resource: the canonical state counts them (capped at 2)
+CORE12 = ["fullA", "fullA2", "fullB", "fullC", "fullC3", "fullP", "fullQ", "fullU", "shortAmb", "shortAmbJones", "shortP", "shortPQux", "supraBar", "refJones", "idNoPin", "idValid", "unknown"]
+CLASS = {"fullA": "A", "fullA2": "A", "fullB": "B", "fullC": "C", "fullC3": "C3", "fullP": "P", "fullQ": "Q", "fullU": "U", "law": "law", "jour": "jour", "jourP": "jourP"}
+PLACEHOLDER_CLASSES = ("P", "Q", "U")  # every instance is its own resource: the canonical state counts them (capped at 2)
 K = {}
 
 
@@ -63,7 +64,7 @@ def build_alphabet():
         K[name] = cs[idx]
     # sanity of the alphabet's intent (harness self-check, not a verdict)
     assert norm_reporter(K["fullA"]) == norm_reporter(K["fullA2"]) == "U.S." and norm_reporter(K["fullC3"]) == "F.3d"
-    assert K["fullP"].groups["page"] is None and K["fullQ"].groups["page"] is None and K["jourP"].groups["page"] is None
+    assert is_placeholder(K["fullP"]) and is_placeholder(K["fullQ"]) and is_placeholder(K["fullU"]) and is_placeholder(K["jourP"])
     assert K["shortPQux"].metadata.antecedent_guess == "Qux" and norm_reporter(K["shortP"]) == norm_reporter(K["fullP"])
     assert K["refJones"].metadata.defendant == "Jones"
     return K
@@ -77,6 +78,12 @@ def instantiate(seq):
 # oracles (operate on real citation objects, so they also apply to extracted lists)
 
 
+def is_placeholder(c):
+    """A page written as underscores only (decided from the text, not from what the code stored)."""
+    page = c.groups.get("page")
+    return page is None or re.fullmatch(r"_+", page) is not None
+
+
 def norm_reporter(c):
     """Normalised reporter = the guessed edition's own name (not its reporter family), else the written
     string. Restated here so that the oracle does not inherit a defect of corrected_reporter()."""
@@ -87,7 +94,7 @@ def norm_reporter(c):
 def same_document(a, b):
     """Statement of C06: equal = same normalised volume, reporter and page, and not a placeholder."""
     if isinstance(a, M.FullCaseCitation) and isinstance(b, M.FullCaseCitation):
-        if a.groups.get("page") is None or b.groups.get("page") is None:
+        if is_placeholder(a) or is_placeholder(b):
             return a is b
         return (a.groups.get("volume"), norm_reporter(a), a.groups.get("page")) == (
             b.groups.get("volume"),
@@ -221,7 +228,7 @@ def oracle_c07(objs, res):
             if i == 0 or where.get(i - 1) != where[i]:
                 out.append(("id-not-predecessor", f"id. #{i} attached to group {g} but the citation before it is {'unresolved' if i == 0 or (i - 1) not in where else 'in group ' + str(groups[where[i - 1]])}"))
                 continue
-            if isinstance(head, M.FullCaseCitation) and head.groups.get("page") is None:
+            if isinstance(head, M.FullCaseCitation) and is_placeholder(head):
                 out.append(("id-placeholder", f"id. #{i} attached to a case with a placeholder page"))
             pin = c.metadata.pin_cite
             page = head.groups.get("page") if hasattr(head, "groups") else None
@@ -313,7 +320,7 @@ def canon(hist):
     return (key, last)
 
 
-def bfs(names, on_transition=None, max_states=100000):
+def bfs(names, on_transition=None, max_states=100000, check_sound=True):
     """Fix-point BFS. Returns dict with states, transitions, depth, reps, unsound list."""
     seen = {}
     reps = collections.defaultdict(list)
@@ -344,7 +351,7 @@ def bfs(names, on_transition=None, max_states=100000):
     unsound = []
     checked = 0
     for c, rs in reps.items():
-        if len(rs) == 2:
+        if check_sound and len(rs) == 2:
             for ev in names:
                 checked += 1
                 a = step_outcome(rs[0], ev)
@@ -360,4 +367,5 @@ def bfs(names, on_transition=None, max_states=100000):
         "unsound": unsound,
         "capped": capped,
         "seen": seen,
+        "reps": dict(reps),
     }
